@@ -139,6 +139,55 @@ fn zst_cases(rep: &mut Report) {
     }
 }
 
+/// `get()` on other threads while one thread initialises: the first `Some` a reader sees is the
+/// complete value (the cell is published only after the value is in place).
+fn publish_race(rep: &mut Report) {
+    const MAGIC: u64 = 0xA5A5_5A5A_DEAD_BEEF;
+    for round in 0..300 {
+        rep.cases += 1;
+        // a seed with drop glue (heap buffer) and a value of 2 KiB stored in place of it
+        let cell = Arc::new(OnceInitCell::<Vec<u64>, [u64; 256]>::new(vec![7u64; 8 + round % 5]));
+        let go = Arc::new(std::sync::Barrier::new(4));
+        let readers: Vec<_> = (0..3).map(|_| {
+            let (cell, go) = (cell.clone(), go.clone());
+            std::thread::spawn(move || {
+                go.wait();
+                let t0 = std::time::Instant::now();
+                loop {
+                    if let Some(v) = cell.get() {
+                        let mut bad = 0usize;
+                        for w in v.iter() {
+                            if unsafe { std::ptr::read_volatile(w) } != MAGIC {
+                                bad += 1;
+                            }
+                        }
+                        return bad;
+                    }
+                    if t0.elapsed() > std::time::Duration::from_secs(5) {
+                        return usize::MAX;
+                    }
+                    std::hint::spin_loop();
+                }
+            })
+        }).collect();
+        go.wait();
+        let r = cell.get_or_init(|seed: &mut Vec<u64>| {
+            seed.push(1);
+            [MAGIC; 256]
+        });
+        let own_ok = r.iter().all(|w| *w == MAGIC);
+        let bads: Vec<usize> = readers.into_iter().map(|h| h.join().unwrap_or(usize::MAX - 1)).collect();
+        rep.checks += 1;
+        if !own_ok || bads.iter().any(|b| *b != 0) {
+            rep.mismatch(json!({"what":"a concurrent get() returned a reference before the value was in place (or never saw the value)",
+                "round":round,"wrong_words_per_reader":bads.iter().map(|b| if *b >= usize::MAX - 1 { -1i64 } else { *b as i64 }).collect::<Vec<_>>(),"initialiser_sees_value":own_ok}));
+            if rep.mismatches.len() > 5 {
+                return;
+            }
+        }
+    }
+}
+
 /// racing threads on a seed WITHOUT destructor (the other code path)
 fn nodrop_races(rep: &mut Report, rng: &mut StdRng) {
     for _ in 0..150 {
@@ -303,6 +352,7 @@ pub fn main(args: &[String]) {
     zst_cases(&mut rep);
     // K threads racing; outcomes prescribed per thread; gated so that they overlap
     let mut rng = StdRng::seed_from_u64(seed);
+    publish_race(&mut rep);
     nodrop_races(&mut rep, &mut rng);
     trace::enable();
     for round in 0..300 {
